@@ -22,3 +22,14 @@ TWINS = [
     T("dict-size-equivalent-form", S, "dict_size = (2 | (prop_byte & 1)) << (prop_byte // 2 + 11)", "dict_size = (2 + (prop_byte & 1)) * (1 << (prop_byte // 2 + 11))"),
     T("basename-inline", A, "                filename = member.name\n                basename = os.path.basename(filename)\n", "                filename = member.name\n                basename = os.path.basename(filename)\n                logger.debug(\"member %s\", filename)\n"),
 ]
+
+# --- seeded changes kept under /verif/seeded (sub-agents saw only the property text); each must be reported by the named rule
+import os as _os
+from sa.selftest.harness import P as _P
+_SEEDS = _os.path.join(_os.path.dirname(_os.path.dirname(_os.path.dirname(_os.path.abspath(__file__)))), "seeded")
+SEEDED = [
+    ("C10-1", "C10-EXACT"),
+    ("C10-2", "C10-CODEC"),
+    ("C10-5", "C10-EXACT"),
+]
+MUTANTS = list(MUTANTS) + [_P("seed-" + sid, _os.path.join(_SEEDS, sid, "patch.diff"), rule) for sid, rule in SEEDED if _os.path.exists(_os.path.join(_SEEDS, sid, "patch.diff"))]
